@@ -484,6 +484,10 @@ def replay(path: str) -> int:
     if res.get("harness"):
         return 2
     if not res["ok"]:
+        known = load_known(prop_id)
+        if res["sig"] in known:
+            print(f"KNOWN-FINDING: property={prop_id} {res['sig']} :: {known[res['sig']]}")
+            return 0
         print(f"VIOLATION property={prop_id} replay={path}")
         return 1
     return 0
